@@ -15,4 +15,8 @@ theorem obind_some {α β : Type} {x : Option α} {f : α → Option β} {b : β
     (x >>= f) = some b ↔ ∃ a, x = some a ∧ f a = some b := by
   cases x <;> simp [bind, Option.bind]
 
+theorem emap_ok {ε α β : Type} {x : Except ε α} {f : α → β} {b : β} :
+    Except.map f x = .ok b ↔ ∃ a, x = .ok a ∧ f a = b := by
+  cases x <;> simp [Except.map]
+
 end Dlis
